@@ -193,8 +193,10 @@ static void apply(void *vs, int op)
         g_fail_socket = o->k == K_OPEN_FAIL_SOCKET; g_fail_bind = o->k == K_OPEN_FAIL_BIND; g_fail_listen = o->k == K_OPEN_FAIL_LISTEN; g_fail_connect = o->k == K_OPEN_FAIL_CONNECT;
         spif_bool_t r = spif_socket_open(x);
         g_fail_socket = g_fail_bind = g_fail_listen = g_fail_connect = 0;
-        int expect_ok = (o->k == K_OPEN) && (o->obj == O_L || (s->listening && s->owns[O_L]));
-        if ((r ? 1 : 0) != expect_ok) FAIL(site, "model:return", shape, "open returned %d, expected %d", (int) r, expect_ok);
+        /* the listener's open succeeds unless a failure is injected; whether the client's connect() finds a listening
+         * description depends on duplicates of the listener too, so only "an injected failure makes it fail" is demanded there */
+        if (o->k != K_OPEN && r) FAIL(site, "model:return", shape, "open returned TRUE although a system call failed");
+        if (o->k == K_OPEN && o->obj == O_L && !r) FAIL(site, "model:return", shape, "open of the listener failed without an injected fault");
         /* whatever happened, a descriptor that socket() produced belongs to the object until it is closed or deleted */
         s->owns[o->obj] = (o->k != K_OPEN_FAIL_SOCKET);
         if (r && o->obj == O_L) { s->listening = 1; spif_socket_set_nbio(x); }
